@@ -58,6 +58,25 @@ def validate(segs, wd, tag, spec="TraceStore", cfg="TraceStore.cfg"):
     return True, res, None
 
 
+def report_live_bad(chk, res, flat):
+    """Precommit events whose embedded BlRoot is not the reference Merkle root over the earlier Alhs (collected by the trace spec)."""
+    for b in vlib.printed_json(res.out):
+        for item in b["bad"]:
+            if item["mode"] != "live":
+                continue
+            ev = json.loads(flat[item["line"] - 1])
+            start = max(i for i in range(item["line"]) if '"ev":"Reset"' in flat[i])
+            pre = flat[start:item["line"]]
+            if any('"ev":"Discard"' in x for x in pre) and any('"ev":"Opened"' in x for x in pre):
+                sig = "live:precommit-embeds-stale-binary-linking-root-after-discard-and-restart"
+            else:
+                sig = "live:precommit-embeds-wrong-binary-linking-root"
+            chk.violation(sig, "tx %d was precommitted with a BlRoot that is not the Merkle root over the accumulated hashes of txs 1..%d (config %s)"
+                          % (ev["id"], ev["bl"], json.loads(flat[start]).get("cfg")),
+                          {"config": json.loads(flat[start]).get("cfg"), "event": ev,
+                           "logical_trace_prefix": [json.loads(x) for x in pre if '"Observed"' not in x and '"Recovered"' not in x][-80:]})
+
+
 def run(chk, args):
     thorough = chk.tier == "thorough"
     wd = vlib.scratch("C02")
@@ -108,6 +127,7 @@ def run(chk, args):
                           "(config %s) %s" % (json.dumps(ev), line2, json.loads(seg[0]).get("cfg"),
                                               "violates invariant " + res2.violation if res2.violation else "cannot be explained by any action (guard false)"),
                           {"trace": [json.loads(x) for x in seg[:line2 + 2]], "rejected_line": line2})
+        report_live_bad(chk, res, [x for s in groups[gi] for x in s])
     r["traces"] = len(segs)
     vlib.absorb(chk, r)
     chk.cov["trace_events_validated"] = nev
